@@ -9,9 +9,9 @@
   numpy's documented interval; every randomised theorem is `∀ draws`.
 
   Stated on the shared layer-N model (`Model/{Stats,Family,Debiasers,Isimip}.lean`); `ecdf` / `iecdf` laws are reused
-  from `Props/C16.lean`.  Helper lemmas: `Lemmas/C09{Stats,Deb,Step4,Step6,Families}.lean`.
+  from `Props/C16.lean`.  Helper lemmas: `Lemmas/C09{Stats,Deb,Step4,Step6,Families,Window}.lean`.
 -/
-import IbicusModel.Lemmas.C09Families
+import IbicusModel.Lemmas.C09Window
 import IbicusModel.Lemmas.GenDebiasers
 
 namespace Props.C09
@@ -275,6 +275,22 @@ example : IsiLaws tasCfg Model.Isimip.ratSigmoid ∧ CfgOrdered tasCfg :=
 -- … and a variable with both bounds and thresholds (hurs-like) with a genuinely bounded family (uniform)
 example : IsiLaws hursCfg uniformFam ∧ CfgOrdered hursCfg := ⟨isiLaws_hurs_uniform, cfgOrdered_hurs⟩
 
+/-- **the whole ISIMIP window** `_apply_on_window` with `detrending = False` (steps 3 and 7 are the identity):
+    `step6 ∘ step5 ∘ step4`.  Guards of `step6_mono`, plus what numpy documents about the step-4 draws (inside
+    `[bound, threshold]` resp. `[threshold, bound]`) and **pairwise distinct draws** (probability 1): with tied draws
+    two different sub-threshold values become equal after step 4 and step 6 orders equal values by `argsort`'s
+    tie-breaking — `step4_order` (`≤`, every draw) is the statement without that guard. -/
+theorem window_mono (c : Cfg) (fam : IsiFamily) (o : Oracles) (d : Draws) (obs H F : List Rat)
+    (yO yH yF : List Int) (out : List Rat) (hdet : c.detrending = false)
+    (ho : obs ≠ []) (hh : H ≠ []) (hf : F ≠ [])
+    (hela : c.eventLikelihoodAdjustment = false) (hL : IsiLaws c fam) (hc : CfgOrdered c)
+    (hdata : ∀ v ∈ F, InBounds c v)
+    (hndL : d.lowF.Nodup) (hndU : d.upF.Nodup)
+    (hdL : ∀ u ∈ d.lowF, ExtRat.leOf u c.lowerThreshold = true ∧ InBounds c u)
+    (hdU : ∀ u ∈ d.upF, ExtRat.geOf u c.upperThreshold = true ∧ InBounds c u)
+    (h : applyOnWindow c fam o d obs H F yO yH yF = .ok out) : OrderPres F out :=
+  window_orderPres c fam o d obs H F yO yH yF out hdet ho hh hf hela hL hc hdata hndL hndU hdL hdU h
+
 /-! ## 7. left-censored gamma model in parametric QuantileMapping (F16) -/
 
 /-- what holds **for every draw**: monotone on values at or above the censoring threshold, and
@@ -295,17 +311,33 @@ theorem censored_qm_subthreshold_pair_can_invert :
       censQM1 Gh Qo thr t xj uj < censQM1 Gh Qo thr t xi ui :=
   censQM_subthreshold_pair_can_invert
 
+/-! ## 8. hurdle model in parametric QuantileMapping -/
+
+/-- **for every draw** `u ≤ p0` (`np.random.uniform(0, p0)`; `p0` = dry fraction of `cm_hist`): zeros are ties whose
+    randomised cdf values never exceed `p0`, wet values have cdf values `≥ p0`, the hurdle ppf is monotone — a strictly
+    smaller (non-negative) value never gets a larger output.  Local transcription (`Lemmas.C09.hurdleCdf / hurdlePpf`)
+    of `gen_PrecipitationHurdleModel`; the precipitation models proper are C17's. -/
+theorem hurdle_qm_order (Gh Qo : Rat → Rat) (p0h p0o t : Rat) (ht0 : 0 < t) (ht : t ≤ 1 / 2)
+    (hp1 : p0h ≤ 1) (hpo : p0o < 1) (hG : MonoR Gh) (hG0 : ∀ z : Rat, 0 ≤ Gh z)
+    (hQ : ∀ p q : Rat, 0 < p → p ≤ q → q < 1 → Qo p ≤ Qo q) (hQ0 : ∀ p : Rat, 0 < p → p < 1 → 0 ≤ Qo p)
+    (xi xj ui uj : Rat) (hxi : 0 ≤ xi) (hlt : xi < xj) (hui : ui ≤ p0h) :
+    hurdleQM1 Gh Qo p0h p0o t xi ui ≤ hurdleQM1 Gh Qo p0h p0o t xj uj :=
+  hurdleQM1_order Gh Qo p0h p0o t ht0 ht hp1 hpo hG hG0 hQ hQ0 xi xj ui uj hxi hlt hui
+
+-- satisfiable: `G(z) = z/(1+z)` on `z ≥ 0`, `Q(p) = p/(1−p)`, dry fractions 1/2 and 1/4, a dry and a wet day
+example : hurdleQM1 (fun z => if z < 0 then 0 else z / (1 + z)) (fun p => p / (1 - p)) (1 / 2) (1 / 4) (1 / 1000) 0 (1 / 3)
+    ≤ hurdleQM1 (fun z => if z < 0 then 0 else z / (1 + z)) (fun p => p / (1 - p)) (1 / 2) (1 / 4) (1 / 1000) 1 0 := by
+  decide +kernel
+
 /-
   Not proved here (left to the oracle of `harness/c09.py`, stated in full):
 
-  * hurdle model (`gen_PrecipitationHurdleModel`) inside parametric QuantileMapping — "zeros are ties; randomised dry
-    cdf values never exceed p0; hence x_i < x_j ⇒ out_i ≤ out_j for every draw" — needs `Model/Precip.lean` (C17),
-    which does not exist in this tree.
-  * the whole ISIMIP window `_apply_on_window` (detrending off) as a composition `step6 ∘ step4`:
-      ∀ draws, F_i < F_j → out_i ≤ out_j
-    `step4_order` gives `≤` after step 4 and `step6_mono` needs `<` before step 6: the composition holds when the
-    step-4 draws are pairwise distinct (probability 1) — with tied draws two different sub-threshold values
-    become equal and step 6 orders equal values by `argsort`'s tie-breaking.
+  * the censored and the hurdle model are proved on *local transcriptions* of the two `StatisticalModel` classes
+    (`Model/Precip.lean`, C17, does not exist in this tree); their tie to the code is a structural probe in
+    `harness/c09.py` plus the oracle, not a driver correspondence.
+  * the whole ISIMIP window for *tied* step-4 draws (`window_mono` carries `Nodup` hypotheses on the draws), and with
+    `detrending = True` (the per-year trend added back in step 7 differs between years, so order is preserved
+    within a year only — outside the property's "within one window, detrending off" clause).
   * event likelihood adjustment (`event_likelihood_adjustment = True`, not a default of any variable):
     `expit(L_obs_i + clamp(L_future_i − L_hist_i))` is not monotone in `i` in general; excluded by guard.
 -/
